@@ -474,6 +474,18 @@ pub fn rich_connack_props(rng: &mut Rng, success: bool) -> Props {
         if rng.chance(1, 4) { p.push(pid::AUTH_METHOD, s(rng)); }
         if rng.chance(1, 4) { p.push(pid::AUTH_DATA, PropVal::Bin(rand_bytes(rng, false))); }
     }
+    if !success && rng.coin() {
+        // a refusing CONNACK may carry the capability properties as well; in particular
+        // "Subscription Identifiers unavailable", which only a *successful* CONNACK turns into
+        // the documented assertion
+        if rng.chance(1, 2) { p.push(pid::SUBSCRIPTION_ID_AVAILABLE, PropVal::Byte(rng.below(2) as u8)); }
+        if rng.chance(1, 3) { p.push(pid::RECEIVE_MAXIMUM, PropVal::U16(rand_u16nz(rng))); }
+        if rng.chance(1, 3) { p.push(pid::MAXIMUM_QOS, PropVal::Byte(rng.below(2) as u8)); }
+        if rng.chance(1, 3) { p.push(pid::RETAIN_AVAILABLE, PropVal::Byte(rng.below(2) as u8)); }
+        if rng.chance(1, 3) { p.push(pid::WILDCARD_AVAILABLE, PropVal::Byte(rng.below(2) as u8)); }
+        if rng.chance(1, 3) { p.push(pid::SHARED_AVAILABLE, PropVal::Byte(rng.below(2) as u8)); }
+        if rng.chance(1, 3) { p.push(pid::TOPIC_ALIAS_MAXIMUM, PropVal::U16(*rng.pick(&[0u16, 1, 65_535]))); }
+    }
     if rng.chance(1, 3) { p.push(pid::REASON_STRING, s(rng)); }
     if rng.chance(1, 3) { p.push(pid::SERVER_REFERENCE, s(rng)); }
     for (k, w) in rand_user(rng, false) {
@@ -514,6 +526,8 @@ pub fn codec_in(rng: &mut Rng) -> Case {
     cfg.inbound_absent_ids = true;
     cfg.w_ops = [1, 2, 2, 4, 2, 1];
     cfg.rich = true;
+    // the client allows topic aliases, so the server may use them (also with an empty topic)
+    cfg.own_topic_alias_max = Some(65_535);
     let variant = rng.below(10);
     let mut g = Gen::new(cfg, rng);
     // one run in ten: the Context has served a connection before, which was cut inside a packet
